@@ -12,7 +12,7 @@
   that the compiled driver executes and that the `json` engine compares byte for byte with
   `ProcessState::print_json` on every run.
 -/
-import MdProofs.Lemmas.Json
+import MdProofs.Lemmas.JsonParse
 namespace MdModel.Json
 open MdModel
 
@@ -416,5 +416,99 @@ theorem modules_mirror (s : StateModel) (j : Json) (h : printJson s = .ok j) :
     obtain ⟨mj, hmj, hok⟩ := huk i m hi
     obtain ⟨a, b, c, d⟩ := unloadedJson_members _ _ m mj hok
     exact ⟨mj, hmj, b, c, a, d⟩
+
+/-! ## 6. "hex-string addresses padded to the crashing platform's pointer width" -/
+
+theorem hexDigits_hex (v : Nat) : (hexDigits v).all isHexLower = true :=
+  digitsB_all 16 isHexLower (by decide) (fun d hd => (digitChar_hex d hd).1) v
+
+theorem hexValue_hexDigits (v : Nat) : hexValue (hexDigits v) = v :=
+  valB_digitsB 16 hexVal (by decide) (fun d hd => (digitChar_hex d hd).2.1) v
+
+theorem hexPad_toList (w v : Nat) :
+    (hexPad w v).toList = '0' :: 'x' :: (List.replicate (w - (hexDigits v).length) '0' ++ hexDigits v) := by
+  simp [hexPad, padLeft]
+
+/-- **hex_width** — an address is `0x` followed by lower-case hex digits only: at least the
+    platform's digit count (8 on 32-bit CPUs, 16 on 64-bit and unknown CPUs), and exactly that
+    many whenever the value fits the platform's pointers (always, for a `u64` on a 64-bit or
+    unknown platform: 18 characters). -/
+theorem hex_width (pw : PW) (v : Nat) :
+    ∃ ds, (hexAddr pw v).toList = '0' :: 'x' :: ds ∧ ds.all isHexLower = true ∧
+      pw.digits ≤ ds.length ∧ (v < 16 ^ pw.digits → ds.length = pw.digits) := by
+  refine ⟨_, hexPad_toList _ _, ?_, ?_, ?_⟩
+  · simp only [List.all_append, hexDigits_hex, Bool.and_true]
+    simp [isHexLower, isDigit]
+  · simp only [List.length_append, List.length_replicate]; omega
+  · intro hv
+    have h1 : 1 ≤ pw.digits := by cases pw <;> decide
+    have := digitsB_length_le 16 (by decide) v pw.digits h1 hv
+    simp only [List.length_append, List.length_replicate]
+    unfold hexDigits
+    omega
+
+theorem hex_width_u64 (pw : PW) (v : Nat) (hv : v ≤ U64MAX) (h : pw ≠ .b32) :
+    (hexAddr pw v).toList.length = 18 := by
+  obtain ⟨ds, h1, _, _, h4⟩ := hex_width pw v
+  have hd : pw.digits = 16 := by cases pw <;> simp_all [PW.digits]
+  rw [h1, List.length_cons, List.length_cons, h4 (by rw [hd]; simp [U64MAX] at hv; omega), hd]
+
+theorem hex_width_u32 (v : Nat) (hv : v ≤ U32MAX) : (hexAddr .b32 v).toList.length = 10 := by
+  obtain ⟨ds, h1, _, _, h4⟩ := hex_width .b32 v
+  rw [h1, List.length_cons, List.length_cons, h4 (by simp [PW.digits, U32MAX] at *; omega)]
+  rfl
+
+/-- **hex_roundtrip** — reading the digits after `0x` back gives the address. -/
+theorem hex_roundtrip (pw : PW) (v : Nat) : parseHexStr (hexAddr pw v) = some v := by
+  obtain ⟨ds, h1, h2, h3, _⟩ := hex_width pw v
+  have hds : ds = List.replicate (pw.digits - (hexDigits v).length) '0' ++ hexDigits v := by
+    have := hexPad_toList pw.digits v
+    unfold hexAddr at h1
+    rw [h1] at this
+    simpa using this
+  have hne : ds ≠ [] := by
+    rw [hds]; simp [digitsB_ne_nil, hexDigits]
+  simp only [parseHexStr, h1, hne, ne_eq, not_false_eq_true, h2, and_self, if_true]
+  rw [hds]
+  unfold hexValue
+  rw [valB_zeros 16 hexVal (by decide)]
+  exact congrArg some (hexValue_hexDigits v)
+
+/-- the same shape holds for register values (`format_register`, width = register size) and
+    the microcode version (`{:#x}`, width 0) -/
+theorem hexPad_roundtrip (w v : Nat) : parseHexStr (hexPad w v) = some v := by
+  have hne : List.replicate (w - (hexDigits v).length) '0' ++ hexDigits v ≠ [] := by
+    simp [digitsB_ne_nil, hexDigits]
+  have hall : (List.replicate (w - (hexDigits v).length) '0' ++ hexDigits v).all isHexLower = true := by
+    simp only [List.all_append, hexDigits_hex, Bool.and_true]
+    simp [isHexLower, isDigit]
+  simp only [parseHexStr, hexPad_toList, hne, ne_eq, not_false_eq_true, hall, and_self, if_true]
+  unfold hexValue
+  rw [valB_zeros 16 hexVal (by decide)]
+  exact congrArg some (hexValue_hexDigits v)
+
+/-! ## 7. "the JSON report is valid UTF-8 JSON" -/
+
+/-- **render_parses** — for EVERY value (strings over all Unicode scalar values incl. quotes,
+    backslashes, controls, non-BMP; every number token; any nesting), the compact rendering is
+    accepted by the strict RFC 8259 parser and denotes the value it was rendered from. -/
+theorem render_parses (j : Json) : parse (render j) = some j := parse_render j
+
+/-- the bytes written are valid UTF-8 (they are the UTF-8 encoding of a character sequence)
+    and parse back to the value -/
+theorem render_parses_bytes (j : Json) :
+    (renderBytes j).IsValidUTF8 ∧ parseBytes (renderBytes j) = some j := by
+  refine ⟨(String.ofList (render j)).isValidUTF8, ?_⟩
+  have : String.fromUTF8? (String.ofList (render j)).toUTF8 = some (String.ofList (render j)) := by
+    unfold String.fromUTF8?
+    split
+    · rfl
+    · rename_i h; exact absurd (String.ofList (render j)).isValidUTF8 h
+  simp only [parseBytes, renderBytes, this, String.toList_ofList]
+  exact parse_render j
+
+/-- in particular the report of every state on which `print_json` returns -/
+theorem report_valid_json (s : StateModel) (j : Json) (_h : printJson s = .ok j) :
+    (renderBytes j).IsValidUTF8 ∧ parseBytes (renderBytes j) = some j := render_parses_bytes j
 
 end MdModel.Json
